@@ -332,3 +332,37 @@ def eval_lookup(expr, dict_txt: str, present: dict):
             return not ev(e.operand)
         raise ValueError(f"unsupported: {A.short(e)}")
     return ev(expr)
+
+
+def expand_globals(module_tree, expr):
+    """`expr` with module-level names that are assigned exactly once at module level replaced by that value (constants that a
+    refactor introduced for a literal or for a small record such as StreamRange(start=0, stop=0))."""
+    import copy
+
+    defs, counts = {}, {}
+    for s in module_tree.body:
+        if isinstance(s, (ast.Assign, ast.AnnAssign)):
+            for t in (s.targets if isinstance(s, ast.Assign) else [s.target]):
+                if isinstance(t, ast.Name) and getattr(s, "value", None) is not None:
+                    counts[t.id] = counts.get(t.id, 0) + 1
+                    defs[t.id] = s.value
+
+    class X(ast.NodeTransformer):
+        def visit_Name(self, n):
+            if isinstance(n.ctx, ast.Load) and counts.get(n.id) == 1:
+                return copy.deepcopy(defs[n.id])
+            return n
+    return X().visit(copy.deepcopy(expr))
+
+
+def copies_all_items(stmt, src: str, dst: str) -> bool:
+    """the statement copies every item of the dict `src` into the dict `dst` in place: a loop over (a list of) src.items() storing
+    dst[k] = v, or dst.update(src)"""
+    if isinstance(stmt, ast.Expr) and isinstance(stmt.value, ast.Call) and A.call_name(stmt.value) == f"{dst}.update" and len(stmt.value.args) == 1 \
+            and A.norm(stmt.value.args[0]) in (src, f"dict({src})", f"{src}.items()"):
+        return True
+    if isinstance(stmt, ast.For) and A.norm(stmt.iter) in (f"{src}.items()", f"list({src}.items())", f"tuple({src}.items())") and isinstance(stmt.target, ast.Tuple) \
+            and len(stmt.target.elts) == 2:
+        k, v = (A.norm(e) for e in stmt.target.elts)
+        return any(isinstance(x, ast.Assign) and A.norm(x.targets[0]) == f"{dst}[{k}]" and A.norm(x.value) == v for x in stmt.body)
+    return False
